@@ -112,10 +112,15 @@ impl BoxedUint {
         let nlimbs = (bits_precision / Limb::BITS) as usize;
         let bytes = hex.as_bytes();
 
-        assert!(
-            bytes.len() == Limb::BYTES * nlimbs * 2,
-            "hex string is not the expected size"
-        );
+        if bytes.len() != Limb::BYTES * nlimbs * 2 {
+            // the length is public: report a string of the wrong size as `none` instead of panicking
+            return CtOption::new(
+                Self {
+                    limbs: vec![Limb::ZERO; nlimbs.max(1)].into(),
+                },
+                Choice::from(0),
+            );
+        }
         let mut res = vec![Limb::ZERO; nlimbs];
         let mut buf = [0u8; Limb::BYTES];
         let mut i = 0;
